@@ -91,6 +91,9 @@ func (c *declChecker) check() []error {
 	if c.decl.IsExternal() && len(c.decl.Modes()) != 1 {
 		c.errs = append(c.errs, fmt.Errorf("external predicate must have exactly one mode"))
 	}
+	if _, ok := c.decl.Reflects(); ok && len(p.Args) != 1 {
+		c.errs = append(c.errs, fmt.Errorf("in decl %v: a predicate that reflects a name prefix must have exactly one argument", p))
+	}
 	if c.decl.DeferredPredicate() && len(c.decl.Modes()) != 1 {
 		c.errs = append(c.errs, fmt.Errorf("deferred predicate must have exactly one mode"))
 	}
